@@ -31,13 +31,16 @@ type Profile struct {
 
 var prefixes = []string{"", "x.y/", "github.com/u/", "a/b/", "a/b/v2/", "gopkg.in/"}
 
-var lastElems = []string{"a", "d", "D", "fmt", "rand", "go", "int", "err", "any", "comparable", "pkg", "1x", "123", "x-y", "x.y", "ünï", "日本", "c", "v2", "d/", "d1", "d2", "D1", "template", "min", "pkg1", "C", "_", "d_1"}
+var lastElems = []string{"a", "d", "D", "fmt", "rand", "go", "int", "err", "any", "comparable", "pkg", "1x", "123", "x-y", "x.y", "ünï", "日本", "c", "v2", "d/", "d1", "d2", "D1", "template", "min", "pkg1", "C", "_", "d_1",
+	// long names: 33 bytes and more, two of them equal in their first 32 bytes and in length
+	"organizationslocationsrepositoriespackages", "organizationslocationsrepositoriespackagez", "averyveryverylongpackagenameof33by", strings.Repeat("longname", 9)}
 
 var stdCollide = []string{"math/rand", "crypto/rand", "math/rand/v2", "text/template", "html/template", "fmt", "os", "io", "net/http", "net/url", "strings", "bytes", "errors", "path", "path/filepath", "go/ast", "go/token", "go/types", "text/scanner", "go/scanner", "encoding/json", "encoding/xml", "io/fs", "testing/fstest", "container/list", "container/heap", "crypto/md5", "hash/crc32", "unicode/utf8", "unicode/utf16", "time", "sort", "sync", "sync/atomic", "math", "math/big", "math/bits", "os/exec", "os/signal", "runtime/debug", "debug/elf", "image/color", "go/build/constraint", "go/constant", "unsafe", "unsafe", "embed"}
 
-var hintNames = []string{"a", "d", "d1", "d2", "fmt", "rand", "foo", "ünï", "X", "pkg", "pkg_d", "pkg_d1", "p_d", "template", "c", "v2", "xy", "go1", "Rand", "q", "C", "_", "_"}
+var hintNames = []string{"a", "d", "d1", "d2", "fmt", "rand", "foo", "ünï", "X", "pkg", "pkg_d", "pkg_d1", "p_d", "template", "c", "v2", "xy", "go1", "Rand", "q", "C", "_", "_",
+	"realnameofthirtythreebytesexactlyy", "realnameofthirtythreebytesexactlyz", strings.Repeat("name", 20)}
 
-var prefixChoices = []string{"", "", "pkg", "p", "_", "ü", "pkg_d"}
+var prefixChoices = []string{"", "", "pkg", "p", "_", "ü", "pkg_d", "a_prefix_of_thirty_bytes_length"}
 
 // Reserved is every keyword and universe-scope identifier (independent of jennifer's list).
 func Reserved() []string {
@@ -282,6 +285,13 @@ func Gen(pr Profile) func(t *rapid.T) Scenario {
 						if len(anonOnly) > 0 {
 							args = append([]recipe.Text{recipe.Text(rapid.SampledFrom(anonOnly).Draw(t, "anonagain"))}, args...)
 						}
+					case 2:
+						// a long list in one call (nine paths and more), after whatever was imported before
+						for j := rapid.IntRange(8, 20).Draw(t, "anonmany"); j > 0; j-- {
+							b := fmt.Sprintf("anon.example/many/%d/%s", j, rapid.SampledFrom(lastElems).Draw(t, "anonmanylast"))
+							args = append(args, recipe.Text(b))
+							anonOnly = append(anonOnly, b)
+						}
 					case 1:
 						// a path repeated within one call, others behind it
 						b := "anon.example/second/" + rapid.SampledFrom(lastElems).Draw(t, "anonlast2")
@@ -479,6 +489,12 @@ func GenBody(t *rapid.T, paths []string, pr Profile) []*recipe.Node {
 					pairs = append(pairs, recipe.Pair{K: hidden, V: recipe.Null()})
 				} else {
 					pairs = append(pairs, recipe.Pair{K: recipe.Null(), V: hidden})
+				}
+			}
+			if rapid.IntRange(0, 3).Draw(t, "bigdict") == 0 {
+				// a table: the pairs that refer to packages among 8..30 that do not
+				for j := rapid.IntRange(8, 30).Draw(t, "npad"); j > 0; j-- {
+					pairs = append(pairs, recipe.Pair{K: recipe.Lit(fmt.Sprintf("pad%d-%d", len(body), j)), V: recipe.Lit(j)})
 				}
 			}
 			body = append(body, recipe.S().C("Var").C("Id", "_").C("Op", "=").C("Map", anyT()).C("Interface").C("Values", recipe.Dict(pairs...)))
